@@ -72,6 +72,9 @@ pub fn evaluate(prop: &str, case: &Case, fault: &Fault) -> Vec<Failure> {
     match fault {
         Fault::None => {
             let d = eval_hist(case);
+            if prop == "C07" {
+                return crate::c07::oracle(&d);
+            }
             d.failures.into_iter().filter(|f| f.prop == prop).collect()
         }
         Fault::Crash { .. } => crate::crash::evaluate_crash(prop, case, fault),
